@@ -11,6 +11,16 @@ package main
 // decided on L's own graph and carried to P by three boundary obligations (c02Boundary); values that cross the boundary
 // (plugin object, capability list, name) are followed on SSA values through Return -> Extract and Parameter -> argument
 // (c02Leaves), never by name.
+//
+// Third pass (generalisation by class, see the comments at each helper):
+//   - "the plugin declares capability X" is a fact with two spellings — asked on the spot (slices.Contains) or kept in a
+//     flag set while the declared list is built / scanned (c02Ownership, c02FlagMeaning); the routing rules are stated on
+//     the edges on which the fact is known, whichever spelling produced them;
+//   - a gate may be decided by a helper the guarded values are handed to (validator with an error result, predicate):
+//     the "went well" edge of the call stands for the gate iff the helper answers well only behind the gate
+//     (c02SkipGateCut); an effect may sit in a helper, its gates are then the facts on the whole way from the entry of the
+//     root function (c18Frame.guards) and a map parameter is as fresh as what every caller hands in (c02FreshMapAt);
+//   - obligations are keyed per EVENT, not per printed form of the object (rules_c02.go, c02Gating).
 
 import (
 	"fmt"
@@ -1211,10 +1221,15 @@ func (x *c02Lists) filteredMetadataCap(a *ssa.Call, e ssa.Value) bool {
 	}
 	fi := w.Info(f)
 	d := desc(e)
-	cut := fi.edgesMatching(func(l string, _ *ssa.If, _ bool) bool {
-		return l == "EQ("+d+fmt.Sprintf(",const:%q)", x.rv) || l == "EQ("+d+fmt.Sprintf(",const:%q)", x.ti)
-	})
-	if len(cut) != 2 || fi.reachHit(entryState(), cut, blocksOf(a)) {
+	// both capabilities are tested for (each by at least one edge — the same element may be compared again further on, to
+	// set a flag, say) and with every such edge removed the append is out of reach
+	cutRV := fi.edgesMatching(func(l string, _ *ssa.If, _ bool) bool { return l == "EQ("+d+fmt.Sprintf(",const:%q)", x.rv) })
+	cut := fi.edgesMatching(func(l string, _ *ssa.If, _ bool) bool { return l == "EQ("+d+fmt.Sprintf(",const:%q)", x.ti) })
+	nTI := len(cut)
+	for e := range cutRV {
+		cut[e] = true
+	}
+	if len(cutRV) == 0 || nTI == 0 || fi.reachHit(entryState(), cut, blocksOf(a)) {
 		x.why = "the append at " + w.InstrPos(a) + " is reachable for a capability other than the two verification capabilities"
 		return false
 	}
@@ -1801,4 +1816,827 @@ func c02ErrorStores(w *World, fi *FnInfo, R *ssa.Function, cut map[edgeKey]bool)
 		}
 	}
 	return n
+}
+
+// ---------- a gate decided by a helper ---------------------------------------------------------------------------------
+
+// c02SkipGateCut: the edges of f that can be passed only if `type == revocation || action != skip` holds for the pair
+// (type, action) that is spelled kd, vd in f's frame:
+//   - the edges that say one of the two themselves (or whose label is the disjunction of the two: the false edge of
+//     `action == skip && type != revocation` tested as one condition);
+//   - the "went well" edges of a call of a module function H that is handed the pair — `err == nil` of a validator
+//     `validate(type, action) error`, the true (false) edge of a predicate `allowed(type, action) bool` — when H itself
+//     answers nil (true, false) only behind such edges: on H's own graph, with the pair spelled as H's parameters and
+//     those edges removed, no success-capable exit (no exit answering true, false) is left. The argument is the one the
+//     engine uses when it composes summaries: H's parameters ARE the caller's arguments, so a fact every nil answer of H
+//     has passed is a fact of every path of f through the `err == nil` edge of the call. Decided recursively (a validator
+//     may delegate once more), three levels deep.
+//
+// Where the check is written — inline, in a validator, in a predicate — is thus immaterial; what is removed from the
+// graph is always "every way to get past without type == revocation or action != skip".
+func c02SkipGateCut(w *World, f *ssa.Function, kd, vd, tr, as string, depth int) map[edgeKey]bool {
+	fi := w.Info(f)
+	one := func(a string) bool {
+		return a == "EQ("+kd+fmt.Sprintf(",const:%q)", tr) || a == "NE("+vd+fmt.Sprintf(",const:%q)", as)
+	}
+	cut := fi.edgesMatching(func(l string, _ *ssa.If, _ bool) bool {
+		if one(l) {
+			return true
+		}
+		if op, alts := splitTopArgs(l); op == "OR" && len(alts) > 0 {
+			for _, a := range alts {
+				if !one(a) {
+					return false
+				}
+			}
+			return true
+		}
+		return false
+	})
+	if depth >= 3 {
+		return cut
+	}
+	for _, ci := range allCalls(f) {
+		call, ok := ci.(*ssa.Call)
+		if !ok {
+			continue
+		}
+		H := staticCallee(call)
+		if H == nil || H == f || H.Blocks == nil || !w.IsProductFn(H) || len(call.Call.Args) != len(H.Params) {
+			continue
+		}
+		ki, vi := -1, -1
+		for i, a := range call.Call.Args {
+			switch desc(a) {
+			case kd:
+				ki = i
+			case vd:
+				vi = i
+			}
+		}
+		if ki < 0 || vi < 0 || ki == vi {
+			continue
+		}
+		// the modes in which H can be asked, and the label of the edge of f on which that answer was given
+		type ask struct {
+			mode  Mode
+			label string
+		}
+		var asks []ask
+		res := H.Signature.Results()
+		switch {
+		case c02ReturnsError(H):
+			asks = append(asks, ask{Mode{Kind: mErr}, "EQ(" + descTailErr(call) + ",nil)"})
+		case res.Len() == 1 && isBoolType(res.At(0).Type()):
+			asks = append(asks, ask{Mode{Kind: mBool, Want: true}, "T(" + desc(call) + ")"}, ask{Mode{Kind: mBool, Want: false}, "F(" + desc(call) + ")"})
+		}
+		if len(asks) == 0 {
+			continue
+		}
+		hcut := c02SkipGateCut(w, H, desc(H.Params[ki]), desc(H.Params[vi]), tr, as, depth+1)
+		if len(hcut) == 0 {
+			continue
+		}
+		hfi := w.Info(H)
+		for _, a := range asks {
+			if hfi.successWitness(a.mode, entryState(), hcut) != nil {
+				continue
+			}
+			for e := range fi.edgesMatching(func(l string, _ *ssa.If, _ bool) bool { return l == a.label }) {
+				cut[e] = true
+			}
+		}
+	}
+	return cut
+}
+
+// ---------- "the plugin declares capability X", however the answer is kept -----------------------------------------------
+//
+// The routing clauses (g) speak about one fact per verification capability X: "X is on the plugin's declared list D". The
+// reference code asks `slices.Contains(D, X)` where it needs the answer. A refactoring may keep the answer instead:
+// a boolean set while D is built (`case X: ownsX = true` in the filter loop) or by one scan of D. The rule is stated on
+// the EDGES of P on which the fact is known to hold / known not to hold (c02Own), found in either form:
+//
+//	Contains form   the edges labelled T/F(slices.Contains(list, X)): the fact is about `list` (the caller shows that list
+//	                to be the declared one);
+//	flag form       the edges of an `if` on a boolean b for which c02FlagMeaning establishes  b == true  <=>  X is on D.
+//
+// Everything the routing rules then require (the native check is reachable only over a "not on D" edge; no success path
+// avoids both the "on D" edges and the native check) is the same obligation as before, on the generalised edge sets.
+
+type c02Own struct {
+	t, f  map[edgeKey]bool // edges of P on which "X is on the declared list" is known true / known false
+	lists []ssa.Value      // the lists the answers are about
+	why   string           // why a boolean that looked like a capability flag could not be followed
+}
+
+type c02Flag struct {
+	ok   bool
+	cap  string    // the capability constant the flag stands for
+	list ssa.Value // the list D the flag speaks about
+	G    *ssa.Function
+	loop map[int]bool // blocks of the loop in which the flag is set
+	why  string
+}
+
+// c02CFGReach: the blocks that can be entered from the start blocks (the starts themselves included) on the plain
+// control-flow graph without taking a cut edge; a block for which stop holds is entered but not left.
+func c02CFGReach(starts []*ssa.BasicBlock, cut map[edgeKey]bool, stop func(*ssa.BasicBlock) bool) map[int]bool {
+	seen := map[int]bool{}
+	var work []*ssa.BasicBlock
+	for _, b := range starts {
+		if !seen[b.Index] {
+			seen[b.Index] = true
+			work = append(work, b)
+		}
+	}
+	for len(work) > 0 {
+		b := work[len(work)-1]
+		work = work[:len(work)-1]
+		if stop != nil && stop(b) && !c02IsStart(starts, b) {
+			continue
+		}
+		for j, s := range b.Succs {
+			if cut[edgeKey{b.Index, j}] || seen[s.Index] {
+				continue
+			}
+			seen[s.Index] = true
+			work = append(work, s)
+		}
+	}
+	return seen
+}
+
+func c02IsStart(starts []*ssa.BasicBlock, b *ssa.BasicBlock) bool {
+	for _, s := range starts {
+		if s == b {
+			return true
+		}
+	}
+	return false
+}
+
+// c02FlagMeaning decides whether the boolean v is a CAPABILITY FLAG: v == true exactly when capability X (one of caps) is
+// on a declared capability list D. v is followed backwards through phis, results of module helpers and parameters to the
+// constants it can be, each with the place (phi edge) at which it flows in. Required:
+//
+//	(1) every `true` flows in inside one loop over a list Z, on an edge that cannot be reached unless the loop's current
+//	    element e passed `e == X` (all such edges removed, the place is unreachable);
+//	(2) Z is the Capabilities list of the GetMetadata response of the looked-up plugin and D is the list built in that
+//	    loop — D's value at the head of the loop changes only by `append(D, e)` — and within one iteration
+//	      (2a) no path sets the flag without appending e to D     (flag true  => X is on D),
+//	      (2b) no path that is taken for e == X appends e to D without setting the flag   (X on D => flag true);
+//	    or Z is itself a declared list D (shown so by the caller) and within one iteration no path that is taken for
+//	    e == X reaches the next iteration without setting the flag, and the loop is not left early without setting it;
+//	(3) every `false` flows in before the loop (from a place the loop head cannot reach): the flag is never reset.
+//
+// The `if` that tests v must lie outside the loop (it sees the final value). Then on the true edge of that `if` some
+// element equal to X has been put on D (1, 2a), and on the false edge none has (2b, 3) — which is what
+// slices.Contains(D, X) answers.
+func c02FlagMeaning(ro *c02Roles, v ssa.Value, caps []string) *c02Flag {
+	w := ro.w
+	out := &c02Flag{}
+	type fedge struct {
+		pos c02Pos
+		val bool
+	}
+	var consts []fedge
+	seen := map[ssa.Value]bool{}
+	var walk func(v ssa.Value, pos c02Pos, depth int) bool
+	walk = func(v ssa.Value, pos c02Pos, depth int) bool {
+		if k, isK := boolConst(v); isK {
+			consts = append(consts, fedge{pos, k})
+			return true
+		}
+		if seen[v] {
+			return true
+		}
+		seen[v] = true
+		if depth > 10 {
+			return false
+		}
+		switch x := v.(type) {
+		case *ssa.Phi:
+			for i, e := range x.Edges {
+				if !walk(e, c02Pos{x.Parent(), x.Block(), i}, depth+1) {
+					return false
+				}
+			}
+			return true
+		case *ssa.Parameter:
+			fn := x.Parent()
+			sites, closed := c05CallSites(w, fn)
+			idx := -1
+			for i, q := range fn.Params {
+				if q == x {
+					idx = i
+				}
+			}
+			if !closed || len(sites) == 0 || idx < 0 {
+				return false
+			}
+			for _, s := range sites {
+				if idx >= len(s.Call.Args) || !walk(s.Call.Args[idx], c02Pos{s.Parent(), s.Block(), -1}, depth+1) {
+					return false
+				}
+			}
+			return true
+		case *ssa.Extract, *ssa.Call:
+			call := callOf(v)
+			k := 0
+			if e, isE := v.(*ssa.Extract); isE {
+				k = e.Index
+			}
+			if call == nil {
+				return false
+			}
+			g := staticCallee(call)
+			if g == nil || g.Blocks == nil || !w.IsProductFn(g) {
+				return false
+			}
+			rets := c02ValueReturns(w, g)
+			if c02ReturnsError(g) && !c02ErrChecked(w, call) {
+				rets = nil
+			}
+			if len(rets) == 0 {
+				return false
+			}
+			for _, r := range rets {
+				if k >= len(r.Results) || !walk(r.Results[k], c02Pos{g, r.Block(), -1}, depth+1) {
+					return false
+				}
+			}
+			return true
+		}
+		return false
+	}
+	if !isBoolType(v.Type()) || !walk(v, c02Pos{}, 0) {
+		return out // not a boolean made of constants: no flag at all (no diagnosis: any other condition lands here)
+	}
+	var trues, falses []c02Pos
+	for _, k := range consts {
+		if k.val {
+			trues = append(trues, k.pos)
+		} else {
+			falses = append(falses, k.pos)
+		}
+	}
+	if len(trues) == 0 {
+		return out
+	}
+	// (1) one loop holds every place at which `true` flows in
+	G := trues[0].fn
+	for _, p := range trues {
+		if p.fn != G || p.pred < 0 || p.fn == nil {
+			out.why = "a flag that is set in several functions, or handed over as the constant true, is not followed"
+			return out
+		}
+	}
+	var loop *sliceLoop
+	var LB map[int]bool
+	for _, sl := range sliceLoops(G) {
+		lb := loopBlocks(sl.Header)
+		all := true
+		for _, p := range trues {
+			if !lb[p.b.Preds[p.pred].Index] || !lb[p.b.Index] {
+				all = false
+			}
+		}
+		if all && (loop == nil || len(lb) < len(LB)) {
+			sl := sl
+			loop, LB = &sl, lb
+		}
+	}
+	if loop == nil {
+		return out // set outside any loop over a list: some other boolean
+	}
+	gfi := w.Info(G)
+	// the current element of the loop: the loads of Z[i] for the index the loop head compares with len(Z)
+	var idxV ssa.Value
+	if iff, ok := blockTerm(loop.Header).(*ssa.If); ok {
+		if bo, ok := iff.Cond.(*ssa.BinOp); ok {
+			idxV = bo.X
+		}
+	}
+	elems := map[ssa.Value]bool{}
+	elemD := map[string]bool{}
+	zD := desc(loop.X)
+	sameList := func(v ssa.Value) bool { // Z itself, or Z read again (`for i := 0; i < len(m.Caps); i++ { … m.Caps[i] … }`)
+		return v == loop.X || desc(v) == zD
+	}
+	for bi := range LB {
+		for _, in := range G.Blocks[bi].Instrs {
+			switch x := in.(type) {
+			case *ssa.UnOp:
+				if ia, ok := x.X.(*ssa.IndexAddr); ok && x.Op == token.MUL && sameList(ia.X) && ia.Index == idxV {
+					elems[x] = true
+					elemD[desc(x)] = true
+				}
+			case *ssa.Index:
+				if sameList(x.X) && x.Index == idxV {
+					elems[x] = true
+					elemD[desc(x)] = true
+				}
+			}
+		}
+	}
+	eqEdges := func(op, X string) map[edgeKey]bool {
+		return gfi.edgesMatching(func(l string, _ *ssa.If, _ bool) bool {
+			for d := range elemD {
+				if l == op+"("+d+fmt.Sprintf(",const:%q)", X) {
+					return true
+				}
+			}
+			return false
+		})
+	}
+	for _, X := range caps {
+		cut := eqEdges("EQ", X)
+		if len(cut) == 0 {
+			continue
+		}
+		all := true
+		for _, p := range trues {
+			if !c02PosBlocked(w, p, cut) {
+				all = false
+			}
+		}
+		if all {
+			if out.cap != "" {
+				out.cap = ""
+				out.why = "the flag is set under tests of two capabilities"
+				return out
+			}
+			out.cap = X
+		}
+	}
+	if out.cap == "" {
+		return out // not set under `element == capability`: some other boolean
+	}
+	// from here on the boolean IS a capability flag by construction; whatever cannot be shown is reported
+	X := out.cap
+	out.G, out.loop = G, LB
+	inLoop := func(b *ssa.BasicBlock) bool { return LB[b.Index] }
+	stopIter := func(b *ssa.BasicBlock) bool { return b == loop.Header || !inLoop(b) } // end of the iteration / loop left
+	ended := func(reached map[int]bool) bool {
+		for bi := range reached {
+			if bi == loop.Header.Index || !LB[bi] {
+				return true
+			}
+		}
+		return false
+	}
+	sEdges := map[edgeKey]bool{}
+	for _, p := range trues {
+		pb := p.b.Preds[p.pred]
+		for j, s := range pb.Succs {
+			if s == p.b {
+				sEdges[edgeKey{pb.Index, j}] = true
+			}
+		}
+	}
+	// the edges a path "taken for e == X" cannot use: the false edge of `e == X`, the true edge of `e == K` for another
+	// constant K; and, for the searches below, the edges that set the flag
+	neCut := func() map[edgeKey]bool {
+		cut := eqEdges("NE", X)
+		for e := range gfi.edgesMatching(func(l string, _ *ssa.If, _ bool) bool {
+			for d := range elemD {
+				if pre := "EQ(" + d + ",const:"; strings.HasPrefix(l, pre) && l != pre+fmt.Sprintf("%q)", X) {
+					return true
+				}
+			}
+			return false
+		}) {
+			cut[e] = true
+		}
+		for e := range sEdges {
+			cut[e] = true
+		}
+		return cut
+	}
+	lst := &c02Lists{ro: ro, rv: caps[0], ti: caps[len(caps)-1], seen: map[*ssa.Call]bool{}}
+	if lst.isMetadataCaps(loop.X) {
+		// (2) Z = metadata.Capabilities: D is the capability list built in this loop
+		var D *ssa.Phi
+		var apps []*ssa.Call
+		for _, in := range loop.Header.Instrs {
+			p, ok := in.(*ssa.Phi)
+			if !ok {
+				break
+			}
+			if !c02IsCapsType(p.Type()) {
+				continue
+			}
+			as, ok := c02GrowsOnlyBy(p, LB, elems)
+			if !ok || len(as) == 0 {
+				continue
+			}
+			if D != nil {
+				out.why = "two capability lists are built in the loop that sets the flag"
+				return out
+			}
+			D, apps = p, as
+		}
+		if D == nil {
+			out.why = "the loop that sets the flag builds no capability list that grows only by appending the current element"
+			return out
+		}
+		aBlocks := map[int]bool{}
+		intoA := map[edgeKey]bool{}
+		for _, a := range apps {
+			aBlocks[a.Block().Index] = true
+			cutInto(gfi, a.Block(), intoA)
+		}
+		// an append, once made, stays: whichever way the iteration ends behind it, what flows into D at the head of the
+		// loop is an appended list (not the old value again: `t := append(D, e); if … { D = t }`), and the loop is not left
+		// in another way (the list a `break` carries out is not looked at)
+		for _, a := range apps {
+			behind := c02CFGReach([]*ssa.BasicBlock{a.Block()}, nil, stopIter)
+			for bi := range behind {
+				if !LB[bi] {
+					out.why = "the loop that builds the capability list can be left behind an append (" + w.InstrPos(a) + ")"
+					return out
+				}
+			}
+			if !c02AppendSticks(D, a, apps, LB) {
+				out.why = "an element appended to the capability list can be dropped again before the next iteration (" + w.InstrPos(a) + ")"
+				return out
+			}
+		}
+		// (2a) no iteration sets the flag without appending
+		if !aBlocks[loop.Body.Index] {
+			pre := c02CFGReach([]*ssa.BasicBlock{loop.Body}, intoA, stopIter)
+			for _, p := range trues {
+				pb := p.b.Preds[p.pred]
+				if !pre[pb.Index] || aBlocks[pb.Index] || aBlocks[p.b.Index] {
+					continue
+				}
+				if p.b == loop.Header || ended(c02CFGReach([]*ssa.BasicBlock{p.b}, intoA, stopIter)) {
+					out.why = "the flag can be set for an element that is not appended to the capability list (" + w.InstrPos(blockTerm(pb)) + ")"
+					return out
+				}
+			}
+		}
+		// (2b) no iteration appends an element equal to X without setting the flag
+		cut := neCut()
+		pre := c02CFGReach([]*ssa.BasicBlock{loop.Body}, cut, stopIter)
+		for _, a := range apps {
+			if pre[a.Block().Index] && ended(c02CFGReach([]*ssa.BasicBlock{a.Block()}, cut, stopIter)) && a.Block() != loop.Header {
+				out.why = "an element equal to the capability can be appended to the capability list without the flag being set (" + w.InstrPos(a) + ")"
+				return out
+			}
+		}
+		out.list = D
+	} else {
+		// Z is itself the list the flag speaks about (the caller shows it declared): a scan of D
+		cut := neCut()
+		if ended(c02CFGReach([]*ssa.BasicBlock{loop.Body}, cut, stopIter)) {
+			out.why = "an element equal to the capability can pass the scanning loop without the flag being set"
+			return out
+		}
+		// the scan is left early only with the flag set
+		reached := c02CFGReach([]*ssa.BasicBlock{loop.Body}, sEdges, stopIter)
+		for bi := range reached {
+			if !LB[bi] {
+				out.why = "the scanning loop can be left before the end of the list without the flag being set"
+				return out
+			}
+		}
+		out.list = loop.X
+	}
+	// (3) never reset: every `false` flows in at a place the loop head cannot reach
+	after := c02CFGReach([]*ssa.BasicBlock{loop.Header}, nil, nil)
+	for _, p := range falses {
+		if p.fn != G {
+			out.why = "the flag can be cleared in another function than the one that sets it"
+			return out
+		}
+		at := p.b
+		if p.pred >= 0 {
+			at = p.b.Preds[p.pred]
+		}
+		if after[at.Index] {
+			out.why = "the flag can be cleared after it was set (" + w.InstrPos(blockTerm(at)) + ")"
+			return out
+		}
+	}
+	out.ok = true
+	return out
+}
+
+// c02AppendSticks: on every path from the append a to the head of the loop, the list value that a produced (followed
+// along the path: through the phis that take it over the edge the path uses, through further appends onto it) is what
+// flows into D there.
+func c02AppendSticks(D *ssa.Phi, a *ssa.Call, apps []*ssa.Call, LB map[int]bool) bool {
+	type st struct {
+		b   *ssa.BasicBlock
+		cur ssa.Value
+	}
+	header := D.Block()
+	// the value at the end of block b, entered with cur (appends of the block that come behind `from`)
+	through := func(b *ssa.BasicBlock, cur ssa.Value, from ssa.Instruction) ssa.Value {
+		for _, in := range b.Instrs {
+			if from != nil && instrIndex(in) <= instrIndex(from) {
+				continue
+			}
+			for _, a2 := range apps {
+				if in == ssa.Instruction(a2) && a2.Call.Args[0] == cur {
+					cur = a2
+				}
+			}
+		}
+		return cur
+	}
+	seen := map[st]bool{}
+	work := []st{{a.Block(), through(a.Block(), a, a)}}
+	for len(work) > 0 {
+		x := work[len(work)-1]
+		work = work[:len(work)-1]
+		if seen[x] {
+			continue
+		}
+		seen[x] = true
+		for _, s := range x.b.Succs {
+			if !LB[s.Index] {
+				continue
+			}
+			pi := -1
+			for i, p := range s.Preds {
+				if p == x.b {
+					pi = i
+				}
+			}
+			if s == header {
+				if pi < 0 || pi >= len(D.Edges) || D.Edges[pi] != x.cur {
+					return false
+				}
+				continue
+			}
+			cur := x.cur
+			for _, in := range s.Instrs {
+				p, ok := in.(*ssa.Phi)
+				if !ok {
+					break
+				}
+				if pi >= 0 && pi < len(p.Edges) && p.Edges[pi] == x.cur {
+					cur = p
+					break
+				}
+			}
+			work = append(work, st{s, through(s, cur, nil)})
+		}
+	}
+	return true
+}
+
+// c02GrowsOnlyBy: D is a list-valued phi at the head of a loop (blocks LB). Every value that flows into D over a back edge
+// is D itself or `append(D', e)` with e a current element of the loop and D' again such a value: inside the loop the list
+// only grows, by the current element. Returns the appends.
+func c02GrowsOnlyBy(D *ssa.Phi, LB map[int]bool, elems map[ssa.Value]bool) ([]*ssa.Call, bool) {
+	var apps []*ssa.Call
+	seen := map[ssa.Value]bool{D: true}
+	var walk func(v ssa.Value, depth int) bool
+	walk = func(v ssa.Value, depth int) bool {
+		if seen[v] {
+			return true
+		}
+		seen[v] = true
+		if depth > 10 {
+			return false
+		}
+		switch x := v.(type) {
+		case *ssa.Phi:
+			if !LB[x.Block().Index] {
+				return false
+			}
+			for _, e := range x.Edges {
+				if !walk(e, depth+1) {
+					return false
+				}
+			}
+			return true
+		case *ssa.Call:
+			a := c02AppendCall(x)
+			if a == nil || !LB[a.Block().Index] {
+				return false
+			}
+			es := appendedElems(a.Call.Args[1])
+			if len(es) == 0 {
+				return false
+			}
+			for _, e := range es {
+				if !elems[e] {
+					return false
+				}
+			}
+			apps = append(apps, a)
+			return walk(a.Call.Args[0], depth+1)
+		}
+		return false
+	}
+	for i, e := range D.Edges {
+		if i < len(D.Block().Preds) && LB[D.Block().Preds[i].Index] {
+			if !walk(e, 0) {
+				return nil, false
+			}
+		}
+	}
+	return apps, true
+}
+
+// isMetadataCaps: every value the list can be is <GetMetadata response of the looked-up plugin>.Capabilities.
+func (x *c02Lists) isMetadataCaps(base ssa.Value) bool {
+	leaves, ok := c02Leaves(x.ro.w, base)
+	if !ok || len(leaves) == 0 {
+		x.why = "the origins of " + desc(base) + " could not be enumerated"
+		return false
+	}
+	for _, leaf := range leaves {
+		u, isLoad := leaf.(*ssa.UnOp)
+		good := false
+		if isLoad && u.Op == token.MUL {
+			if fa, isFa := u.X.(*ssa.FieldAddr); isFa && fieldName(fa.X.Type(), fa.Field) == "Capabilities" {
+				if ex, isEx := fa.X.(*ssa.Extract); isEx && ex.Index == 0 {
+					for _, md := range x.ro.mdCalls {
+						if ex.Tuple == ssa.Value(md) {
+							good = true
+						}
+					}
+				}
+			}
+		}
+		if !good {
+			x.why = "the filtered list is " + desc(leaf) + ", not the Capabilities of the GetMetadata response of the plugin that was looked up"
+			return false
+		}
+	}
+	return true
+}
+
+// c02Ownership collects, for capability X, the edges of P on which "X is on the declared list" is known, in both forms.
+func c02Ownership(ro *c02Roles, X string, caps []string, memo map[ssa.Value]*c02Flag) *c02Own {
+	w := ro.w
+	F := ro.P
+	fi := w.Info(F)
+	own := &c02Own{t: map[edgeKey]bool{}, f: map[edgeKey]bool{}}
+	sel := func(want bool) EdgeSel {
+		return func(l string, _ *ssa.If, _ bool) bool {
+			pre := "F("
+			if want {
+				pre = "T("
+			}
+			return strings.HasPrefix(l, pre+"call:slices.Contains(") && strings.HasSuffix(l, fmt.Sprintf(",const:%q))", X))
+		}
+	}
+	own.t, own.f = fi.edgesMatching(sel(true)), fi.edgesMatching(sel(false))
+	for _, ci := range allCalls(F) {
+		if call, ok := ci.(*ssa.Call); ok && calleeName(call) == "slices.Contains" && len(call.Call.Args) == 2 {
+			if k, ok := call.Call.Args[1].(*ssa.Const); ok && constString(k) == fmt.Sprintf("%q", X) {
+				own.lists = append(own.lists, call.Call.Args[0])
+			}
+		}
+	}
+	for _, b := range F.Blocks {
+		iff, ok := blockTerm(b).(*ssa.If)
+		if !ok || len(b.Succs) != 2 {
+			continue
+		}
+		cond, neg := iff.Cond, false
+		for {
+			u, isU := cond.(*ssa.UnOp)
+			if !isU || u.Op != token.NOT {
+				break
+			}
+			neg = !neg
+			cond = u.X
+		}
+		switch cond.(type) {
+		case *ssa.Phi, *ssa.Extract, *ssa.Parameter:
+		default:
+			continue
+		}
+		if cx, cl, cok := c02CachedContains(w, cond); cok {
+			if cx == fmt.Sprintf("%q", X) {
+				for j := 0; j < 2; j++ {
+					if (j == 0) != neg {
+						own.t[edgeKey{b.Index, j}] = true
+					} else {
+						own.f[edgeKey{b.Index, j}] = true
+					}
+				}
+				own.lists = append(own.lists, cl)
+			}
+			continue
+		}
+		m, done := memo[cond]
+		if !done {
+			m = c02FlagMeaning(ro, cond, caps)
+			memo[cond] = m
+		}
+		if m.cap != X {
+			continue
+		}
+		if m.ok && m.G == F && m.loop[b.Index] {
+			m = &c02Flag{cap: X, why: "the flag is tested inside the loop that sets it"}
+		}
+		if !m.ok {
+			own.why = m.why
+			continue
+		}
+		for j := 0; j < 2; j++ {
+			if (j == 0) != neg {
+				own.t[edgeKey{b.Index, j}] = true
+			} else {
+				own.f[edgeKey{b.Index, j}] = true
+			}
+		}
+		own.lists = append(own.lists, m.list)
+	}
+	return own
+}
+
+// c02FreshMapAt: the map was made in this function (freshMap), or it is a parameter of a function all of whose callers are
+// known (c05CallSites) and every one of them hands in a map it has made itself: the store goes into a map that is as
+// fresh as if the helper's body stood at the call site.
+func c02FreshMapAt(w *World, v ssa.Value, depth int) bool {
+	if freshMap(v, 0) {
+		return true
+	}
+	par, ok := v.(*ssa.Parameter)
+	if !ok || depth > 2 {
+		return false
+	}
+	fn := par.Parent()
+	sites, closed := c05CallSites(w, fn)
+	idx := -1
+	for i, q := range fn.Params {
+		if q == par {
+			idx = i
+		}
+	}
+	if !closed || len(sites) == 0 || idx < 0 {
+		return false
+	}
+	for _, s := range sites {
+		if idx >= len(s.Call.Args) || !c02FreshMapAt(w, s.Call.Args[idx], depth+1) {
+			return false
+		}
+	}
+	return true
+}
+
+// c02CachedContains: v is `slices.Contains(list, X)` computed on some paths and the constant false on the others, merged by
+// a phi — `var owns bool; if named { …; owns = slices.Contains(caps, X) }`. Accepted when a capability list Q merged in the
+// same block brings, over every edge that brings false, an empty list, and over every other edge the very list that was
+// searched: then v IS slices.Contains(Q, X) (nothing is on an empty list), and Q is the list the answer is about.
+func c02CachedContains(w *World, v ssa.Value) (X string, list ssa.Value, ok bool) {
+	p, isPhi := v.(*ssa.Phi)
+	if !isPhi || !isBoolType(p.Type()) {
+		return "", nil, false
+	}
+	searched := map[int]ssa.Value{}
+	for i, e := range p.Edges {
+		if k, isK := boolConst(e); isK {
+			if k {
+				return "", nil, false
+			}
+			continue
+		}
+		call, isCall := e.(*ssa.Call)
+		if !isCall || calleeName(call) != "slices.Contains" || len(call.Call.Args) != 2 {
+			return "", nil, false
+		}
+		k, isK := call.Call.Args[1].(*ssa.Const)
+		if !isK || k.Value == nil || (X != "" && constString(k) != X) {
+			return "", nil, false
+		}
+		X = constString(k)
+		searched[i] = call.Call.Args[0]
+	}
+	if len(searched) == 0 {
+		return "", nil, false
+	}
+	for _, in := range p.Block().Instrs {
+		q, isQ := in.(*ssa.Phi)
+		if !isQ {
+			break
+		}
+		if !c02IsCapsType(q.Type()) || len(q.Edges) != len(p.Edges) {
+			continue
+		}
+		good := true
+		for i, e := range q.Edges {
+			if l, was := searched[i]; was {
+				if e != l && !(c02SubsetOf(w, e, l) && c02SubsetOf(w, l, e)) {
+					good = false
+				}
+			} else if !c02AllEmpty(w, e) {
+				good = false
+			}
+		}
+		if good {
+			return X, q, true
+		}
+	}
+	return "", nil, false
 }
